@@ -94,7 +94,11 @@ func VP_C17_CoreSurvivesProposal() {
 	prop := cs.Validators.GetProposer()
 	for _, k := range keys {
 		if string(k.PubKey().Address()) == string(prop.Address) {
-			p.Signature = vp.IdealSig(k.PubKey().Bytes(), types.ProposalSignBytes(vpStepChain, p.ToProto()), true)
+			sig, err := k.Sign(types.ProposalSignBytes(vpStepChain, p.ToProto()))
+			if err != nil {
+				panic(err)
+			}
+			p.Signature = sig
 		}
 	}
 	msg := &ProposalMessage{Proposal: p}
